@@ -44,7 +44,7 @@ TOLERATED = {"__new__", "__annotations__"}
 
 
 def GATES(tier):
-    return [("decorations_judged", 300), ("occupied_variants", 200), ("names_identity_checked", 2000), ("user_member_behaviour_checked", 200), ("private_cases", 2), ("collision_cases", 3), ("unmanaged_key_collision_cases", 2), ("second_order_collision_cases", 2),
+    return [("decorations_judged", 300), ("occupied_variants", 200), ("names_identity_checked", 2000), ("user_member_behaviour_checked", 200), ("private_cases", 2), ("collision_cases", 3), ("unmanaged_key_collision_cases", 2), ("second_order_collision_cases", 2), ("same_singular_collision_cases", 4),
             ("mode:annotations", 10), ("mode:attrs", 10), ("mode:attrs_typed", 10), ("mode:attrs_skip", 10), ("mode:mixed_typed_skip_empty", 5), ("mode:mixed_typed_exclusive", 5), ("mode:mixed_attrs_skip_empty", 5), ("subclass_cases", 10), ("super_delegation_cases", 4)] + [(f"occupant:{o}", 20) for o in OCCUPANTS]
 
 
@@ -515,6 +515,42 @@ class T:
             problems = [f"{type(e).__name__}: {e}"]
         if problems:
             ctx.violation("singular_collision_fallback", f"tag + tags + tags_items (bootstrap={boot}): {problems}", features={"case": "collision_second_order", "lazy": not boot}, case=["collision7", boot])
+    # two collections whose natural singulars coincide although that singular is not an attribute name (both declaration orders)
+    for first in ("list_first", "dict_first"):
+        decl = ['    info: List[int] = [1]', '    info_items: Dict[str, str] = {"k": "v"}']
+        src8 = HEAD + "\n@spec_class(bootstrap=BOOT)\nclass T:\n" + "\n".join(decl if first == "list_first" else decl[::-1]) + "\n"
+        for boot in (True, False):
+            ctx.count("collision_cases")
+            ctx.count("same_singular_collision_cases")
+            try:
+                T = cg.exec_module(src8.replace("BOOT", str(boot)), prefix="verif_c16u").__dict__["T"]
+                t = T()
+                attrs = T.__spec_class__.attrs
+                n1, n2 = attrs["info"].item_name, attrs["info_items"].item_name
+                problems = []
+                if n1 == n2:
+                    problems.append(f"both collections publish their element helpers as *_{n1}")
+                else:
+                    for attr, nm in (("info", n1), ("info_items", n2)):
+                        missing = [f"{v}_{nm}" for v in ("with", "update", "transform", "without") if not hasattr(T, f"{v}_{nm}")]
+                        if missing:
+                            problems.append(f"{attr}: no {missing}")
+                    if not problems:
+                        r = getattr(t, f"with_{n1}")(3)
+                        if r.info != [1, 3] or r.info_items != {"k": "v"}:
+                            problems.append(f"with_{n1} (element helper of info) gave info={r.info!r}, info_items={r.info_items!r}")
+                        r = getattr(t, f"with_{n2}")("z", "w")
+                        if r.info_items != {"k": "v", "z": "w"} or r.info != [1]:
+                            problems.append(f"with_{n2} (element helper of info_items) gave info_items={r.info_items!r}, info={r.info!r}")
+                        r = getattr(t, f"without_{n1}")(1)
+                        if r.info != [] or r.info_items != {"k": "v"}:
+                            problems.append(f"without_{n1} (element helper of info) gave info={r.info!r}, info_items={r.info_items!r}")
+            except RuntimeError:
+                problems = []  # refusing the combination is the documented alternative
+            except Exception as e:
+                problems = [f"{type(e).__name__}: {e}"]
+            if problems:
+                ctx.violation("singular_collision_fallback", f"info + info_items, same natural singular (bootstrap={boot}, {first}): {problems}", features={"case": "collision_same_singular", "lazy": not boot, "order": first}, case=["collision8", boot, first])
     src2 = HEAD + '''
 class T:
     child: int = 0
